@@ -45,24 +45,53 @@ type hOp struct {
 }
 
 type hWrap struct {
-	id    party.ID
-	h     protocol.Handler
-	clock *int64
-	mu    sync.Mutex
-	ops   []hOp
+	id     party.ID
+	h      protocol.Handler
+	clock  *int64
+	mu     sync.Mutex
+	ops    []hOp
+	wedged int32
+	dump   string
 }
 
+const c17CallWatchdog = 25 * time.Second
+
+// state is Result() through the watchdog ("running", a terminal descriptor, BLOCKED or SKIPPED).
+func (w *hWrap) state() string {
+	return w.do(71, "result", func() string { return resultString(w.h) })
+}
+
+// do runs one API call on its own goroutine under a watchdog: a call that does not return is recorded as BLOCKED
+// (with a goroutine dump taken at that moment) and the handler is treated as wedged from then on.
 func (w *hWrap) do(proc int, op string, f func() string) string {
+	if atomic.LoadInt32(&w.wedged) == 1 {
+		return "SKIPPED"
+	}
 	call := atomic.AddInt64(w.clock, 1)
 	out := ""
-	func() {
+	done := make(chan string, 1)
+	go func() {
+		o := ""
 		defer func() {
 			if r := recover(); r != nil {
-				out = "PANIC: " + truncStr(fmt.Sprint(r), 120)
+				o = "PANIC: " + truncStr(fmt.Sprint(r), 120)
 			}
+			done <- o
 		}()
-		out = f()
+		o = f()
 	}()
+	select {
+	case out = <-done:
+	case <-time.After(c17CallWatchdog):
+		if atomic.CompareAndSwapInt32(&w.wedged, 0, 1) {
+			buf := make([]byte, 1<<20)
+			k := runtime.Stack(buf, true)
+			w.mu.Lock()
+			w.dump = string(buf[:k])
+			w.mu.Unlock()
+		}
+		out = "BLOCKED"
+	}
 	ret := atomic.AddInt64(w.clock, 1)
 	w.mu.Lock()
 	w.ops = append(w.ops, hOp{proc, op, call, ret, out})
@@ -300,11 +329,11 @@ func c17Run(t *vk.T, pl c17Plan, idx int) {
 			}
 			w.do(90, "stop", func() string { w.h.Stop(); return "" })
 		case "end":
-			for resultString(w.h) == "running" {
+			for w.state() == "running" {
 				if atomic.LoadInt32(&sessionOver) == 1 {
 					break
 				}
-				runtime.Gosched()
+				time.Sleep(200 * time.Microsecond)
 			}
 			w.do(90, "stop", func() string { w.h.Stop(); return "" })
 		}
@@ -315,7 +344,7 @@ func c17Run(t *vk.T, pl c17Plan, idx int) {
 	for time.Now().Before(deadline) {
 		all := true
 		for _, id := range ids {
-			if resultString(wraps[id].h) == "running" || len(inbox[id]) > 0 {
+			if wraps[id].state() == "running" || len(inbox[id]) > 0 {
 				all = false
 			}
 		}
@@ -367,7 +396,7 @@ func c17Run(t *vk.T, pl c17Plan, idx int) {
 		// some handler never closed its channel (e.g. unfinished session): stop them and wait again
 		for _, id := range ids {
 			ww := wraps[id]
-			if resultString(ww.h) == "running" {
+			if ww.state() == "running" {
 				ww.do(93, "stop", func() string { ww.h.Stop(); return "" })
 			}
 		}
@@ -405,6 +434,20 @@ func c17Run(t *vk.T, pl c17Plan, idx int) {
 		t.Obs("api_events", int64(len(ops)))
 		var closedTs int64
 		for _, o := range ops {
+			if o.Out == "BLOCKED" {
+				ww.mu.Lock()
+				d := ww.dump
+				ww.mu.Unlock()
+				parked := strings.Contains(d, "sync.(*Mutex).Lock") && (strings.Contains(d, "pkg/protocol.(*MultiHandler)") || strings.Contains(d, "pkg/protocol.(*TwoPartyHandler)"))
+				if parked {
+					t.Violation(pl.proto+"|call-blocked-forever|"+o.Op+"|stop="+pl.stopAt, "%s: %s on %q never returned: the goroutine dump shows callers parked on the handler's mutex while the outgoing channel is being drained", tag, o.Op, id)
+				} else {
+					t.Inconclusive("%s: %s on %q did not return within the watchdog, without a provable block", tag, o.Op, id)
+				}
+				break
+			}
+		}
+		for _, o := range ops {
 			if strings.HasPrefix(o.Out, "PANIC") {
 				t.Violation(pl.proto+"|panic|"+o.Op+"|stop="+pl.stopAt, "%s: %s on %q panicked: %s", tag, o.Op, id, o.Out)
 			}
@@ -415,8 +458,8 @@ func c17Run(t *vk.T, pl c17Plan, idx int) {
 				t.Violation(pl.proto+"|result-ill-formed", "%s: Result on %q returned %s", tag, id, o.Out)
 			}
 		}
-		final := resultString(ww.h)
-		if closedTs == 0 && final != "running" {
+		final := ww.state()
+		if closedTs == 0 && final != "running" && final != "BLOCKED" && final != "SKIPPED" {
 			t.Violation(pl.proto+"|terminal-but-channel-open|stop="+pl.stopAt, "%s: %q is terminal (%s) but its outgoing channel was never closed", tag, id, truncStr(final, 60))
 		}
 		for _, o := range ops {
@@ -442,7 +485,7 @@ func c17Run(t *vk.T, pl c17Plan, idx int) {
 		for _, o := range ops {
 			switch o.Op {
 			case "result", "accept", "stop":
-				if strings.HasPrefix(o.Out, "PANIC") {
+				if strings.HasPrefix(o.Out, "PANIC") || o.Out == "BLOCKED" || o.Out == "SKIPPED" {
 					continue
 				}
 				pops = append(pops, porcupine.Operation{ClientId: o.Proc % 100, Input: o.Op, Call: o.Call, Output: o.Out, Return: o.Ret})
